@@ -49,5 +49,16 @@ def write (evs : List Ctl.Ev) : Str :=
     | .text [] => []
     | e => renderEv e
 
+/-- a character XML 1.0 can contain: the guard of `write_to` (`XmlCharGuard`) refuses the C0 controls other
+    than tab, LF, CR and U+FFFE / U+FFFF -/
+def xmlChar (c : Char) : Bool :=
+  !((c.toNat < 0x20 && c != '\t' && c != '\n' && c != '\r') || c.toNat == 0xFFFE || c.toNat == 0xFFFF)
+
+/-- `write_to` as the caller sees it: the bytes, or an error when they would hold a character that XML
+    cannot contain -/
+def writeChecked (evs : List Ctl.Ev) : Option Str :=
+  let out := write evs
+  if out.all xmlChar then some out else none
+
 end Xml
 end Svgdx
